@@ -73,10 +73,27 @@ fn docs() -> Vec<Doc> {
         e("A", "    all:\n      - nthChild:\n          position: 1\n          ofRule:\n            matches: B\n"),
         e("B", "    kind: number\n")])],
       tail: "".into(), class: "" },
+    // utilities that refer to each other below a relational rule are NOT ordered by the loader (no same-node
+    // dependency): whichever is built first, the kind cache of the `any` / `all` next to the reference must not
+    // depend on it
+    Doc { head: "id: t6\nlanguage: TypeScript\nmessage: relational reference\nrule:\n  matches: in-call\n".into(),
+      maps: vec![("utils".into(), vec![
+        e("in-call", "    kind: number\n    inside:\n      stopBy: end\n      any:\n        - matches: log-call\n        - kind: new_expression\n"),
+        e("log-call", "    pattern: console.log($$$)\n"),
+        e("aa-call", "    pattern: qux($$$)\n"),
+        e("zz-call", "    kind: string\n    inside:\n      stopBy: end\n      all:\n        - matches: aa-call\n        - kind: call_expression\n")])],
+      tail: "".into(), class: "" },
+    Doc { head: "id: t7\nlanguage: TypeScript\nmessage: relational reference 2\nrule:\n  any:\n    - matches: zz-call\n    - matches: in-call\n".into(),
+      maps: vec![("utils".into(), vec![
+        e("in-call", "    kind: number\n    has:\n      stopBy: end\n      any:\n        - matches: log-call\n        - kind: new_expression\n"),
+        e("log-call", "    kind: number\n"),
+        e("aa-call", "    pattern: qux($$$)\n"),
+        e("zz-call", "    kind: string\n    inside:\n      stopBy: end\n      all:\n        - matches: aa-call\n        - kind: call_expression\n")])],
+      tail: "".into(), class: "" },
   ]
 }
 
-const SRC: &str = "foo(abc, 12);\nfoo(abd, 'x');\nf(x, x);\nf(x, y);\nbar([1, 's', 2], 3);\nqux(7, 'k', 8);\n";
+const SRC: &str = "foo(abc, 12);\nfoo(abd, 'x');\nf(x, x);\nf(x, y);\nbar([1, 's', 2], 3);\nqux(7, 'k', 8);\nconsole.log(1);\nnew Foo(2);\nbar(3);\n";
 
 fn outcome(yaml: &str) -> Value {
   let r = catch_unwind(AssertUnwindSafe(|| {
@@ -248,7 +265,7 @@ pub fn run(o: &Opts) {
     std::fs::write(p.join("sgconfig.yml"), "ruleDirs: [rules]\ntestConfigs:\n  - testDir: tests\n").unwrap();
     for d in ds.iter().filter(|d| d.class.is_empty()) {
       let id = d.head.lines().next().unwrap().replace("id: ", "");
-      let invalid: Vec<&str> = match id.as_str() { "t1" => vec!["foo(abc, 12)", "foo(abx, 3)"], "t2" => vec!["qux(7, 'k', 8)"], "t3" => vec!["f(x, x)"], _ => vec!["bar([1, 's', 2], 3)"] };
+      let invalid: Vec<&str> = match id.as_str() { "t1" => vec!["foo(abc, 12)", "foo(abx, 3)"], "t2" => vec!["qux(7, 'k', 8)"], "t3" => vec!["f(x, x)"], "t6" => vec!["console.log(1)"], "t7" => vec!["qux(7, 'k', 8)"], _ => vec!["bar([1, 's', 2], 3)"] };
       std::fs::write(p.join(format!("tests/{id}-test.yml")), format!("id: {id}\nvalid:\n  - \"nothing()\"\ninvalid:\n{}", invalid.iter().map(|s| format!("  - {}\n", serde_json::to_string(s).unwrap())).collect::<String>())).unwrap();
     }
     let snap = |p: &std::path::Path| -> BTreeMap<String, Vec<u8>> {
